@@ -457,7 +457,7 @@ def R2_authority_helpers(run):
                 key_ok = key_ok or failing_true
             if "is_signer" in s:
                 # `!is_signer` true => fail ; i.e. is_signer false => fail
-                if (at.neg and at.true_fail) or (not at.neg and at.false_fail):
+                if at.false_fail:
                     sig_ok = True
         run.check("R2", "owner-key@" + path, key_ok, "%s does not fail when expected_owner != account key" % path, loc=fn.loc(), detail="expected != key => MissingOrInvalidDelegate")
         run.check("R2", "is-signer@" + path, sig_ok, "%s does not fail when the authority account is not a signer" % path, loc=fn.loc(), detail="!is_signer => MissingOrInvalidDelegate")
@@ -552,12 +552,12 @@ def R3_pinocchio_labelling(run):
         run.touch(fn)
         ok = False
         for at in A.atoms(fn):
-            if "is_signer" in show(at.term) and ((at.neg and at.true_fail) or (not at.neg and at.false_fail)):
+            if "is_signer" in show(at.term) and at.false_fail:
                 ok = True
         run.check("R3", "is_signer@" + m, ok, "AccountIterator::%s returns an account without failing on !is_signer" % m, loc=fn.loc(), detail="!is_signer => AccountNotSigner")
     for m in ("next_mut", "next_signer_mut"):
         fn = facts.need_fn(it + m)
-        ok = any("is_writable" in show(at.term) and ((at.neg and at.true_fail) or (not at.neg and at.false_fail)) for at in A.atoms(fn))
+        ok = any("is_writable" in show(at.term) and at.false_fail for at in A.atoms(fn))
         run.check("R3", "is_writable@" + m, ok, "AccountIterator::%s does not fail on !is_writable" % m, loc=fn.loc(), detail="!is_writable => AccountNotMutable")
     # program id labels
     fnp = facts.need_fn(it + "next_program_account")
